@@ -385,6 +385,21 @@ fn gen_axis(rng: &mut Rng) -> AxCase {
             kind = "identity";
             ds = us.clone();
         }
+        2 if n >= 4 => {
+            // design = user except for one or two nudged interior rows: the un-nudged interior rows lie
+            // exactly on the diagonal of the default normalisation (added after seeded change C08-1)
+            kind = "mostly-identity";
+            ds = us.clone();
+            for _ in 0..rng.range(1, 2) {
+                let i = rng.range(1, n as i64 - 2) as usize;
+                let lo = ds[i - 1];
+                let hi = ds[i + 1];
+                let bent = ds[i] + (hi - ds[i]) * 0.3;
+                if bent > lo && bent < hi {
+                    ds[i] = (bent as f32) as f64;
+                }
+            }
+        }
         1 => {
             kind = "linear";
             let s = *rng.pick(&[0.1, 2.0, 0.5, 10.0, 0.001]);
@@ -657,6 +672,9 @@ fn corpus() -> Vec<FontCase> {
         FontCase { axes: vec![ax("flat", 100.0, 500.0, 900.0, &[(100.0, 10.0), (400.0, 50.0), (500.0, 50.0), (700.0, 80.0), (900.0, 100.0)], 2)], instances: vec![vec![50.0], vec![100.0]] },
         // default at either end, non-integer values, rows not in order
         FontCase { axes: vec![ax("general", 62.5, 62.5, 100.0, &[(100.0, 100.0), (87.5, 89.25), (62.5, 70.0), (75.0, 79.5)], 2), ax("general", -12.0, 0.0, 0.0, &[(-12.0, -30.5), (-6.0, -10.25), (0.0, 0.0)], 2)], instances: vec![vec![70.0, -30.5]] },
+        // one bent stop next to a stop that lies exactly on the diagonal (seeded change C08-1)
+        FontCase { axes: vec![ax("mostly-identity", 400.0, 400.0, 700.0, &[(400.0, 400.0), (500.0, 530.0), (600.0, 600.0), (700.0, 700.0)], 0)], instances: vec![vec![600.0]] },
+        FontCase { axes: vec![ax("mostly-identity", 400.0, 700.0, 700.0, &[(400.0, 400.0), (500.0, 500.0), (600.0, 630.0), (700.0, 700.0)], 3)], instances: vec![] },
         // rows closer than one F2Dot14 step
         FontCase { axes: vec![ax("close", 100.0, 400.0, 900.0, &[(100.0, 10.0), (400.0, 50.0), (400.0078125, 60.0), (900.0, 100.0)], 1)], instances: vec![] },
     ]
